@@ -547,11 +547,18 @@ func checkC12(c *Check) {
 	if r := c.need("R10", queueRel, "Queue", "readDiskQueue"); r != nil {
 		msg := "undecided: no re-scheduling of loaded records found"
 		ast.Inspect(r.FI.Decl.Body, func(x ast.Node) bool {
-			rs, ok := x.(*ast.RangeStmt)
-			if !ok {
+			// the loop over the spool, in whatever form (range, index loop)
+			var rs ast.Stmt
+			var rsBody *ast.BlockStmt
+			switch l := x.(type) {
+			case *ast.RangeStmt:
+				rs, rsBody = l, l.Body
+			case *ast.ForStmt:
+				rs, rsBody = l, l.Body
+			default:
 				return true
 			}
-			for _, call := range callsIn(rs.Body) {
+			for _, call := range callsIn(rsBody) {
 				if !isCall(info, call, "~/"+queueRel+".TimeWheel.Add") || len(call.Args) < 1 {
 					continue
 				}
@@ -574,7 +581,7 @@ func checkC12(c *Check) {
 				for len(work) > 0 {
 					v := work[0]
 					work = work[1:]
-					ast.Inspect(rs.Body, func(y ast.Node) bool {
+					ast.Inspect(rsBody, func(y ast.Node) bool {
 						switch a := y.(type) {
 						case *ast.AssignStmt:
 							for i, l := range a.Lhs {
@@ -609,7 +616,7 @@ func checkC12(c *Check) {
 					if rl := r.FI.Decl.Recv; rl != nil && len(rl.List) == 1 && len(rl.List[0].Names) == 1 && info.Defs[rl.List[0].Names[0]] == types.Object(v) {
 						isRecv = true
 					}
-					if !inLoop && !isRecv && assignedAnywhere(info, rs.Body, v) {
+					if !inLoop && !isRecv && assignedAnywhere(info, rsBody, v) {
 						msg = "the time a loaded record is re-scheduled for depends on " + v.Name() + ", which is declared outside the loop over the spool and updated inside it: what the previous record left there decides this record's retry time (a message that already failed several times is retried at the pace of the least-tried message before it – max_tries is burnt ahead of schedule)"
 					}
 				}
